@@ -30,8 +30,8 @@ Qed.
 Lemma geneq_rvd sr sp ni nu q : rvd_exact sr sp = Ok q -> (gen_rvd sr sp ni nu == q)%Q.
 Proof.
   unfold gen_rvd, rvd_exact; rewrite ?Qeqb_inj.
-  destruct ((sr =? 0) && (sp =? 0)); [intros [= <-]; reflexivity|].
-  destruct (sr =? 0); [discriminate|]. intros [= <-].
-  unfold qdiv. rewrite <- ?inject_Z_plus, <- ?inject_Z_opp. unfold Qminus.
-  rewrite <- inject_Z_opp, <- inject_Z_plus. reflexivity.
+  (* either operand order of the both-empty test is accepted *)
+  destruct (sr =? 0) eqn:Er; destruct (sp =? 0) eqn:Ep; cbn [andb]; try discriminate; intros [= <-]; try reflexivity;
+    unfold qdiv; rewrite <- ?inject_Z_plus, <- ?inject_Z_opp; unfold Qminus;
+    rewrite <- inject_Z_opp, <- inject_Z_plus; reflexivity.
 Qed.
